@@ -6,8 +6,8 @@ CONSTANTS
   ConnOf <- OneConn
   SigOf <- SameSig
   Rounds <- R2
-  EmitSeq <- EmitAAA
-  QCap = 3
+  EmitSeq <- EmitAA
+  QCap = 2
   Dev_ProxySectionsNotAtomic = FALSE
   Dev_SendAfterSnapshot = FALSE
 INVARIANTS TypeOK NoDuplicate InOrderNoGap Complete NoForeignSignal ClosedAfterCancel NothingAfterUnregisterAck OthersUndisturbed AtMostOneRegistration NoLeak
